@@ -187,3 +187,12 @@ Theorem C12_f64_neuro_output_in_limits : forall (n : @neuro Floats.PrimFloat.flo
   (out_ok (npid (neuro_inc F64_ops n set f)) /\ lim_ok (npid (neuro_inc F64_ops n set f))).
 Proof. exact f64_neuro_out_in_limits. Qed.
 Print Assumptions C12_f64_neuro_output_in_limits.
+
+(* the fuzzy-tuned controller on the float run (C13/FuzzyFloat.v): every completed a_pid_fuzzy_run / pos / inc step, any
+   state, rule base, operator and arguments (NaN and infinities included), finite limits outmin <= outmax *)
+From LibaV Require Import C13.FuzzyDefs C13.FuzzyFloat.
+Theorem C12_f64_fuzzy_output_in_limits : forall (s s' : fuzzy (T := Floats.PrimFloat.float)) (o : fop),
+  lim_ok (fpid s) -> is_control_step_f o -> fstep F64_ops s o = Ok s' ->
+  out_ok (fpid s') /\ lim_ok (fpid s').
+Proof. exact f64_fstep_out_in_limits. Qed.
+Print Assumptions C12_f64_fuzzy_output_in_limits.
